@@ -15,6 +15,11 @@ def c02(tier):
         {'kind': 'scope', 'count': 60 if q else 2000, 'cfgs': 'plain', 'args': ['l=4', 'mode=random'],
          'shards': 1 if q else 8},
         {'kind': 'scopeloop', 'count': 40 if q else 400, 'cfgs': 'basic'},
+        # scoping of the binding forms the skeletons do not use (let / let* / letrec / named let whose tag shadows a
+        # variable used in its init / do / internal defines in the typed grammar) and of activations re-entered
+        # through continuations (the environment pointer is part of the captured state)
+        {'kind': 'lang', 'count': 120 if q else 4000, 'cfgs': 'plain', 'shards': 1 if q else 6},
+        {'kind': 'cont', 'count': 60 if q else 2000, 'cfgs': 'plain', 'shards': 1 if q else 4},
     ]
 
     def relevant(mm, sess, runs):
